@@ -161,6 +161,19 @@ async def program(rng, env, depth, problems, who, children, budget):
         lookup_ok(env, problems, who)
 
 
+async def settle(children, problems):
+    for c in list(children):
+        try:
+            await c
+        except asyncio.CancelledError:
+            pass
+        except RuntimeError as e:
+            if "TaskGroup" not in str(e):
+                problems.append(f"a task of the program failed with {e!r}")
+        except BaseException as e:  # noqa
+            problems.append(f"a task of the program failed with {e!r}: entering or leaving one of its own blocks raised")
+
+
 def main():
     sys.stdin.read()
     seed = int(os.environ.get("VERIF_SEED", "0") or 0)
@@ -173,6 +186,13 @@ def main():
 
         async def prog():
             root = D(v=1)
+            if k % 3 == 2:
+                # no asynchronous scope around: ctx.spawn has no task group and starts detached tasks (its fallback branch) - they
+                # inherit a snapshot all the same
+                with ctx.scope("root", root):
+                    await program(rng, [{D: root}], 3, problems, "main", children, [4])
+                    await settle(children, problems)
+                return
             async with ctx.scope("root", root):
                 await program(rng, [{D: root}], 3, problems, "main", children, [4])
                 for c in list(children):
